@@ -53,7 +53,7 @@ struct Params {
 // ---------------------------------------------------------------- statistics: what actually fired
 struct Stats {
 	uint64_t steps=0, switches=0, clock_jumps=0;
-	uint64_t short_reads=0, short_writes=0, eagain_r=0, eagain_w=0, eintr=0, spurious=0, resets=0, epipe=0, partitions=0, partition_refused=0;
+	uint64_t short_reads=0, short_writes=0, eagain_r=0, eagain_w=0, eintr=0, spurious=0, resets=0, epipe=0, partitions=0, partition_refused=0, getpeername_enotconn=0;
 	uint64_t file_short=0, file_eintr=0, cv_spurious=0, stdio_ops=0, stdio_fail=0;
 	uint64_t threads_created=0, mutex_contended=0, rw_contended=0, cv_waits=0;
 	uint64_t accepts=0, connects=0, bytes_rx=0, bytes_tx=0;
